@@ -345,10 +345,10 @@ func mkOps(N, BL int64, quick bool) []opDef {
 	ops := []opDef{
 		{okAdd, window.EvPass, 1}, {okAdd, window.EvPass, 3},
 		{okAdd, window.EvRt, 7}, {okAdd, window.EvRt, 2}, {okAdd, window.EvComplete, 1},
-		{okConc, 0, 2},
+		{okConc, 0, 2}, {okConc, 0, 5}, // two levels: a maximum differs from "the last one seen"
 	}
 	if !quick {
-		ops = append(ops, opDef{okAdd, window.EvBlock, 1}, opDef{okAdd, window.EvError, 1}, opDef{okConc, 0, 5})
+		ops = append(ops, opDef{okAdd, window.EvBlock, 1}, opDef{okAdd, window.EvError, 1})
 	}
 	seen := map[int64]bool{}
 	for _, d := range []int64{1, BL - 1, BL, BL + 1, I - 1, I, I + 1, 3*I + BL/2 + 1} {
